@@ -23,6 +23,8 @@ structure D where
   constraintNotTuples : Bool := false
   coverageOutOfRange : Bool := false
   coverageLengthOutOfRange : Bool := false
+  coverageLengthWithoutLengthAttr : Bool := false
+  coverageLengthWithCoverage : Bool := false
   kNonPositive : Bool := false
   kNotInt : Bool := false
   badWeightType : Bool := false
@@ -50,6 +52,8 @@ def D.has (d : D) : Flag → Bool
   | .constraintNotTuples => d.constraintNotTuples
   | .coverageOutOfRange => d.coverageOutOfRange
   | .coverageLengthOutOfRange => d.coverageLengthOutOfRange
+  | .coverageLengthWithoutLengthAttr => d.coverageLengthWithoutLengthAttr
+  | .coverageLengthWithCoverage => d.coverageLengthWithCoverage
   | .kNonPositive => d.kNonPositive
   | .kNotInt => d.kNotInt
   | .badWeightType => d.badWeightType
@@ -66,7 +70,8 @@ def D.has (d : D) : Flag → Bool
 def D.anyViolation (d : D) : Bool :=
   d.nonStringNode || d.cyclicForDag || d.noSourceOrSink || d.missingWeight || d.negativeWeight ||
   d.nonConservingFlow || d.constraintNotListOfLists || d.constraintEmpty || d.constraintEdgeAbsent ||
-  d.constraintNotTuples || d.coverageOutOfRange || d.coverageLengthOutOfRange || d.kNonPositive ||
+  d.constraintNotTuples || d.coverageOutOfRange || d.coverageLengthOutOfRange ||
+  d.coverageLengthWithoutLengthAttr || d.coverageLengthWithCoverage || d.kNonPositive ||
   d.kNotInt || d.badWeightType || d.badOrigin || d.unknownStart || d.unknownEnd || d.scalingOutOfRange ||
   d.ignoreWrongShape || d.emptyGraph
 
@@ -84,6 +89,8 @@ def D.set (d : D) : String → D
   | "constraintNotTuples" => { d with constraintNotTuples := true }
   | "coverageOutOfRange" => { d with coverageOutOfRange := true }
   | "coverageLengthOutOfRange" => { d with coverageLengthOutOfRange := true }
+  | "coverageLengthWithoutLengthAttr" => { d with coverageLengthWithoutLengthAttr := true }
+  | "coverageLengthWithCoverage" => { d with coverageLengthWithCoverage := true }
   | "kNonPositive" => { d with kNonPositive := true }
   | "kNotInt" => { d with kNotInt := true }
   | "badWeightType" => { d with badWeightType := true }
@@ -115,7 +122,7 @@ def outcome (cg : ClassGuards) (d : D) : Outcome :=
 def simpleFlags : List Flag :=
   [.nonStringNode, .cyclicForDag, .noSourceOrSink, .missingWeight, .negativeWeight, .nonConservingFlow,
    .constraintNotListOfLists, .constraintEmpty, .constraintEdgeAbsent, .constraintNotTuples, .coverageOutOfRange,
-   .coverageLengthOutOfRange, .kNonPositive, .kNotInt, .badWeightType, .badOrigin, .unknownStart, .unknownEnd,
+   .coverageLengthOutOfRange, .coverageLengthWithoutLengthAttr, .coverageLengthWithCoverage, .kNonPositive, .kNotInt, .badWeightType, .badOrigin, .unknownStart, .unknownEnd,
    .scalingOutOfRange, .ignoreWrongShape, .emptyGraph]
 
 /-- the violations present in `d` -/
